@@ -438,10 +438,10 @@ func caseMix(r *fw.Rand, ext string) string {
 
 func c07Run(c *fw.Ctx) fw.Outcome {
 	r := c.R
-	if c.Idx >= tierN(c.Tier, 42*21, 42*210)+tierN(c.Tier, 30, 300) {
-		return c07CLIErrors(c, int(c.Idx-tierN(c.Tier, 42*21, 42*210)-tierN(c.Tier, 30, 300)))
+	if c.Idx >= tierN(c.Tier, 42*21, 42*2100)+tierN(c.Tier, 30, 3000) {
+		return c07CLIErrors(c, int(c.Idx-tierN(c.Tier, 42*21, 42*2100)-tierN(c.Tier, 30, 3000)))
 	}
-	if c.Idx >= tierN(c.Tier, 42*21, 42*210) {
+	if c.Idx >= tierN(c.Tier, 42*21, 42*2100) {
 		return c07Pages(c)
 	}
 	pairs := len(c07Sources) * len(c07Dests)
@@ -930,7 +930,7 @@ func init() {
 		Level:       "exploration",
 		Rule:        "case = (source format, destination format) cycling over all 7 x 6 pairs; a random start-ordered neutral cue list (1..6 cues on a 200 ms grid so that every format can express it exactly, overlaps, abutting cues, repeated texts, 1..2 lines) is rendered into a styled, metadata-bearing source document by the C01-C06 renderers (SRT runs with markup, WebVTT with regions/settings/voices/tags, TTML with styles/regions/attributes, SSA with styles/override blocks, STL at 25/30 fps with any display standard and programme-start offset, teletext TS with one page instance per cue), written to a file whose extension has random letter case, then converted through OpenFile + 0..4 operations (sync, fragment, unfragment, merge with a second document, optimize, order, linear correction last) + Write, or (every 7th round) through the CLI binary built from /repo (convert, sync, fragment, unfragment, merge, optimize, apply-linear-correction). Oracle: the composed executable specifications of C09-C15 applied to the neutral list, truncated to the destination's resolution (ms; cs for ssa/ass; frame for stl, +-1 ns), compared with the destination re-read through OpenFile: count, order, start, end, and text per line with all white space removed; an empty result must give the nothing-to-write error. The last 12 (120) cases put two subtitle pages in one stream and select each through Options.Teletext.Page and through the CLI's -p flag (convert, merge). distinct_nontrivial = distinct (document, destination, operations) cases.",
 		Assumptions: []string{"times are non-negative (negative results of a linear correction are not compared); texts are drawn from an alphabet every format involved can represent (ASCII words; a few Latin letters when teletext is not involved; no '$')", "linear correction is only used as the last operation (its 1 us tolerance would make the outcome of a later fragment ambiguous)"},
-		Cases:       func(tier string) int64 { return tierN(tier, 42*21, 42*210) + tierN(tier, 30, 300) + int64(len(c07SubCommands)) },
+		Cases:       func(tier string) int64 { return tierN(tier, 42*21, 42*2100) + tierN(tier, 30, 3000) + int64(len(c07SubCommands)) },
 		Anchors:     []string{"Open", "OpenFile", "Subtitles.Write", "astisub/main.go", "all readers and writers"},
 		Run:         c07Run,
 	})
